@@ -113,6 +113,7 @@ type Result struct {
 type DB struct {
 	mu     sync.Mutex
 	Tables map[string]*Table
+	ext    *extState // ext.go: temporary tables of the statement being evaluated
 }
 
 // NewDB creates an empty store.
@@ -303,6 +304,7 @@ type evalCtx struct {
 	db     *DB
 	params []Param
 	scope  []scopeEntry
+	outer  []scopeEntry // ext.go: rows of the enclosing statements (correlated sub-selects)
 }
 
 func (c *evalCtx) lookup(fields []string) (tv, error) {
@@ -328,6 +330,9 @@ func (c *evalCtx) lookup(fields []string) (tv, error) {
 			v := s.row[ci]
 			res = tv{v: v, typ: s.t.Cols[ci].Type, isNull: v == nil}
 		}
+	}
+	if found < 0 && len(c.outer) > 0 {
+		return (&evalCtx{db: c.db, params: c.params, scope: c.outer}).lookup(fields)
 	}
 	if found < 0 {
 		return tv{}, sqlErr("42703", "column %q does not exist", name)
@@ -627,7 +632,7 @@ func (c *evalCtx) eval(e node) (tv, error) {
 		}
 		return tv{}, fmt.Errorf("%w: function %s/%d", ErrUnsupported, name, len(args))
 	}
-	return tv{}, fmt.Errorf("%w: expression %s", ErrUnsupported, k)
+	return c.evalExt(k, b)
 }
 
 func cmpValues(a, b Value) (int, error) {
@@ -747,6 +752,9 @@ func (c *evalCtx) cond(e node) (int, error) {
 		}
 		return b2i(!isnull), nil
 	case "A_Expr":
+		if v, handled, err := c.aexprExt(b); handled {
+			return v, err
+		}
 		kind := b["kind"].(string)
 		_, opn := one(asNode(asList(b["name"])[0]))
 		op := opn["sval"].(string)
@@ -825,19 +833,18 @@ func (c *evalCtx) cond(e node) (int, error) {
 		}
 		return 0, fmt.Errorf("%w: operator %s", ErrUnsupported, op)
 	case "A_Const":
-		v, err := constVal(b)
-		if err != nil {
-			return 0, err
-		}
 		if bv, ok := b["boolval"]; ok {
 			if asNode(bv)["boolval"] == true {
 				return 1, nil
 			}
 			return 0, nil
 		}
-		_ = v
+		if _, ok := b["isnull"]; ok {
+			return 2, nil
+		}
+		return 0, fmt.Errorf("%w: condition %s", ErrUnsupported, k)
 	}
-	return 0, fmt.Errorf("%w: condition %s", ErrUnsupported, k)
+	return c.condExt(k, b)
 }
 
 func b2i(b bool) int {
@@ -851,8 +858,15 @@ func b2i(b bool) int {
 func (db *DB) Describe(s *Stmt) ([]Field, error) {
 	db.mu.Lock()
 	defer db.mu.Unlock()
+	return db.describeLocked(s)
+}
+
+func (db *DB) describeLocked(s *Stmt) ([]Field, error) {
 	switch s.Kind {
 	case "SelectStmt":
+		if f, handled, err := db.describeExt(s); handled {
+			return f, err
+		}
 		scope, _, err := db.fromScope(asList(s.body["fromClause"]))
 		if err != nil {
 			return nil, err
@@ -874,6 +888,9 @@ func (db *DB) Describe(s *Stmt) ([]Field, error) {
 
 func (db *DB) relTable(rel node) (*Table, error) {
 	name, _ := rel["relname"].(string)
+	if db.ext != nil && db.ext.temp[name] != nil {
+		return db.ext.temp[name], nil
+	}
 	t := db.Tables[name]
 	if t == nil {
 		return nil, sqlErr("42P01", "relation %q does not exist", name)
@@ -915,7 +932,12 @@ func (db *DB) fromScope(from []interface{}) ([]scopeEntry, []node, error) {
 			}
 			return nil
 		}
-		return fmt.Errorf("%w: FROM item %s", ErrUnsupported, k)
+		e, err := db.fromExt(k, b)
+		if err != nil {
+			return err
+		}
+		scope = append(scope, e)
+		return nil
 	}
 	for _, f := range from {
 		if err := add(asNode(f)); err != nil {
@@ -1238,6 +1260,14 @@ func (db *DB) execDelete(s *Stmt, params []Param) (*Result, error) {
 }
 
 func (db *DB) execSelect(s *Stmt, params []Param) (*Result, error) {
+	return db.execSelectIn(s, params, nil)
+}
+
+// execSelectIn evaluates a SELECT; outer holds the rows of enclosing statements (ext.go: sub-selects).
+func (db *DB) execSelectIn(s *Stmt, params []Param, outer []scopeEntry) (*Result, error) {
+	if res, handled, err := db.selectExt(s, params, outer); handled {
+		return res, err
+	}
 	if op, _ := s.body["op"].(string); op != "" && op != "SETOP_NONE" {
 		return nil, fmt.Errorf("%w: set operation", ErrUnsupported)
 	}
@@ -1258,7 +1288,7 @@ func (db *DB) execSelect(s *Stmt, params []Param) (*Result, error) {
 	for _, tg := range ts {
 		res.Fields = append(res.Fields, tg.field)
 	}
-	c := &evalCtx{db: db, params: params}
+	c := &evalCtx{db: db, params: params, outer: outer}
 	where := asNode(s.body["whereClause"])
 	type outRow struct {
 		vals []Value
